@@ -228,6 +228,18 @@ VALUES = {
     'jobname': ['job', 'my doc', 'j'],
 }
 VARNAMES = ['id', 'title', 'ref', 'name', 'jobname']
+# values that are different strings (so different names must be issued, and a name is reserved only in the exact
+# spelling given) but that a normalisation applied somewhere on the way would identify: canonical / compatibility
+# Unicode equivalence, letter case, blanks.  A history draws repeatedly from ONE group so that such values meet.
+CONFUSABLE = [
+    ['r\u00e9sum\u00e9', 're\u0301sume\u0301', 'r\u00e9sume\u0301'],                      # NFC / NFD
+    ['\u00c5ngstr\u00f6m', 'A\u030angstro\u0308m', '\u212bngstr\u00f6m'],                  # + singleton decomposition (ANGSTROM SIGN)
+    ['Intro', 'intro', 'INTRO', '\u0130ntro'],                                             # letter case
+    ['file', '\ufb01le', '\uff46\uff49\uff4c\uff45'],                                      # NFKC: ligature, fullwidth
+    ['a b', 'a  b', 'a\u00a0b', ' a b', 'a\u2003b', 'a\tb'],                                # blanks
+    ['\U0001d49c1', '\U0001d49c\u0301', 'A1'],                                             # outside the BMP
+    ['\u1e9b\u0323', '\u017f\u0323\u0307', '\u1e61\u0323'],                               # mark reordering
+]
 
 
 def gen_tmpl_body(rng, pool, allow_num, maxseg=3):
@@ -299,11 +311,14 @@ def gen_charsub(rng):
     return bad, sub
 
 
-def gen_bindings(rng, keys=None):
+def gen_bindings(rng, keys=None, group=None):
     b = []
     for k in (keys or ['id', 'title', 'ref', 'name']):
         if rng.random() < 0.5:
-            b.append([k, rng.choice(VALUES[k])])
+            if group and k in ('id', 'title') and rng.random() < 0.6:
+                b.append([k, rng.choice(group)])
+            else:
+                b.append([k, rng.choice(VALUES[k])])
     return b
 
 
@@ -317,7 +332,10 @@ def gen_valid(rng, maxlen=12):
     reserved = rng.sample(['index.html', 'index', 'a.html', 'sect1.html', 's1.html', 'sect001.html', 's2', 'Intro.html', 'toc.html', 'b.html',
                            'images/img-1.png', 'n1.html', 's3.html'], rng.choice([0, 0, 1, 2, 4, 6]))
     n = rng.choice([1, 2, 3, 4, 5, 6, 8, 10, maxlen])
-    reqs = [gen_bindings(rng) for _ in range(n)]
+    group = rng.choice(CONFUSABLE) if rng.random() < 0.35 else None
+    if group and rng.random() < 0.5:        # one spelling is reserved; the others stay legal
+        reserved = reserved + [rng.choice(group) + ext]
+    reqs = [gen_bindings(rng, None, group) for _ in range(n)]
     style = 'omit' if rng.random() < 0.4 else 'explicit'
     return {'style': style, 'spec': spell(tm, rng), 'bad': bad, 'sub': sub, 'ext': ext, 'vars': vars_, 'reserved': reserved, 'ast': ast_words(tm), 'reqs': reqs}
 
@@ -338,13 +356,14 @@ def gen_multi(rng):
         gens.append(g)
     if rng.random() < 0.3:      # the same template on both objects: names may coincide, taken sets must stay apart
         gens[1] = dict(gens[0])
+    group = rng.choice(CONFUSABLE) if rng.random() < 0.3 else None
     ops, alive, nxt = [['N', 0]], [0], 1
     for _ in range(rng.randint(5, 16)):
         r = rng.random()
         if nxt < k and r < 0.25:
             ops.append(['N', nxt]); alive.append(nxt); nxt += 1
         elif r < 0.6:
-            b = gen_bindings(rng) or [['id', rng.choice(VALUES['id'])]]
+            b = gen_bindings(rng, None, group) or [['id', rng.choice(group or VALUES['id'])]]
             ops.append(['B', rng.choice(alive), b])
         else:
             ops.append(['C', rng.choice(alive)])
@@ -481,6 +500,11 @@ def corpus():
     tm = _tm([[('L', 'index')]], ([], [[('V', 'id', None)]], []))
     cs.append(make_case(W('index [$id]', [[], [('id', 'index')], []], ast=ast_words(tm)), 'corpus'))
     cs.append(make_case(W('a$', [[]]), 'corpus'))
+    # canonically equivalent but different strings are different names; a name is reserved in its exact spelling only
+    tm = _tm([[('L', 'index')]], ([], [[('V', 'id', None)], [('L', 'sect'), ('V', 'num', '3')]], []))
+    cs.append(make_case(W('index [$id, sect$num(3)]', [[], [('id', 'r\u00e9sum\u00e9')], [('id', 're\u0301sume\u0301')], [('id', 'r\u00e9sum\u00e9')],
+                                                       [('id', 'A\u030angstro\u0308m')], []],
+                          bad=DEFAULT_BAD, sub='-', vars_=[('jobname', 'cv')], reserved=['\u00c5ngstr\u00f6m.html'], ast=ast_words(tm)), 'corpus'))
     # two objects created without a namespace: a binding made on one must not be seen by the other
     def G(spec, tm, ext):
         return {'spec': spec, 'bad': '', 'sub': '', 'ext': ext, 'vars': [], 'reserved': [], 'ast': ast_words(tm)}
